@@ -22,12 +22,12 @@ void *md_vgrow_stub(void *v, int32_t increment, int32_t itemsize) {
   return md_v2.items;
 }
 /* ---- integer readers: ghost copies of the first ten integers, in call order ---- */
-size_t md_cur; int md_cur_ok = 1; int md_ints; int32_t md_v[10];
+size_t md_cur; int md_cur_ok = 1; int md_ints; int32_t md_v[10]; size_t md_rem[10];   /* md_rem[i]: input bytes left after the i-th header integer */
 static int32_t md_int(const uint8_t **atdata, int nat) {
   int32_t v = nd_i32(); if (nat) __CPROVER_assume(v >= 0);
   size_t at = (size_t)(*atdata - ma_in), k = nd_size(); __CPROVER_assume(at < ma_n && k >= 1 && k <= 5 && k <= ma_n - at);
   md_cur_ok = md_cur_ok && (md_ints == 0 ? at == 0 : at == md_cur);
-  *atdata = ma_in + at + k; if (md_ints < 10) md_v[md_ints] = v; md_cur = at + k; md_ints++; return v;
+  *atdata = ma_in + at + k; if (md_ints < 10) { md_v[md_ints] = v; md_rem[md_ints] = ma_n - (at + k); } md_cur = at + k; md_ints++; return v;
 }
 int32_t md_readint_stub(UnmarshalState *st, const uint8_t **atdata) { return md_int(atdata, 0); }
 int32_t md_readnat_stub(UnmarshalState *st, const uint8_t **atdata) { return md_int(atdata, 1); }
@@ -37,11 +37,25 @@ void *md_gcalloc_stub(enum JanetMemoryType type, size_t size) {
   __CPROVER_assert(type == JANET_MEMORY_FUNCDEF && size == sizeof(JanetFuncDef), "C10 funcdef: one collector-owned definition object");
   md_gc_calls++; md_def = __CPROVER_allocate(size, 0); return md_def;
 }
-int md_allocs;
+int md_allocs, md_post_allocs; size_t md_total;
+int md_u32_calls;
 static void *md_alloc(size_t size, int zero) {
   md_allocs++;
 #ifdef MD_DOS
-  __CPROVER_assert(size <= 24 * (ma_n - md_cur), "C10 funcdef (DOS): no vector requested on behalf of an untrusted count is larger than what the rest of the input can fill (at most 24 bytes of vector per input byte) - a failed allocation is not a catchable error, it exits the process");
+  /* the header is complete before the first vector is requested: R0 = input left when the last count had been read */
+  int32_t dflags = md_v[0];
+  int H = 7 + ((dflags & JANET_FUNCDEF_FLAG_HASENVS) ? 1 : 0) + ((dflags & JANET_FUNCDEF_FLAG_HASDEFS) ? 1 : 0) + ((dflags & JANET_FUNCDEF_FLAG_HASSYMBOLMAP) ? 1 : 0);
+  __CPROVER_assert(md_ints >= H, "C10 funcdef (DOS): no vector is requested before all counts are read");
+  size_t R0 = md_rem[H - 1];
+  /* after the bytecode words are in: [environments] [defs] [sourcemap] [closure bitset] - the bitset is the last one */
+  if (md_u32_calls >= 1) md_post_allocs++;
+  int bitset_no = 1 + ((dflags & JANET_FUNCDEF_FLAG_HASENVS) ? 1 : 0) + ((dflags & JANET_FUNCDEF_FLAG_HASDEFS) ? 1 : 0) + ((dflags & JANET_FUNCDEF_FLAG_HASSOURCEMAP) ? 1 : 0);
+  if ((dflags & JANET_FUNCDEF_FLAG_HASCLOBITSET) && md_u32_calls >= 1 && md_post_allocs == bitset_no) {
+    __CPROVER_assert(size <= sizeof(uint32_t) * ((size_t) 1 << 26), "C10 funcdef (DOS): the closure bitset (sized by the 31-bit slot count, not by a vector count) is at most 2^26 words");
+  } else {
+    md_total += size;
+    __CPROVER_assert(md_total <= 24 * R0, "C10 funcdef (DOS): the vectors requested on behalf of the untrusted counts (constants, symbolmap, bytecode, environments, defs, sourcemap) together take at most 24 bytes per byte of input that was left when the counts had been read - a failed allocation is not a catchable error, it exits the process");
+  }
 #endif
   return __CPROVER_allocate(size, zero);
 }
@@ -82,7 +96,7 @@ const uint8_t *md_defrec_stub(UnmarshalState *st, const uint8_t *data, JanetFunc
   *out = &md_sub; md_defrec_calls++;
   return ma_in + md_cur;
 }
-int md_u32_calls; uint32_t *md_u32_into[2]; int32_t md_u32_n[2];
+uint32_t *md_u32_into[2]; int32_t md_u32_n[2];
 const uint8_t *md_u32s_stub(UnmarshalState *st, const uint8_t *data, uint32_t *into, int32_t n) {
   size_t at = (size_t)(data - ma_in);
   md_cur_ok = md_cur_ok && at == md_cur;
@@ -103,7 +117,7 @@ void h_def_new(void) {
   md_cnt0 = nd_i32(); __CPROVER_assume(md_cnt0 >= 0 && md_cnt0 <= 3);
   md_v1.cap = 4; md_v1.cnt = md_cnt0; md_v1.items[0] = &md_known[0]; md_v1.items[1] = &md_known[1]; md_v1.items[2] = &md_known[2]; md_v1.items[3] = &md_known[3];
   if (md_cnt0 == 0 && nd_int()) st.lookup_defs = 0; else st.lookup_defs = md_v1.items;
-  md_strobj = malloc(sizeof(JanetStringHead) + 4); __CPROVER_assume(md_strobj != 0);
+  md_strobj = __CPROVER_allocate(sizeof(JanetStringHead) + 4, 0);     /* (malloc itself is replaced in this unit) */
   const uint8_t *ret = unmarshal_one_def__entry(&st, MA_CUR, &out, flags);
   MA_DEPTH_OK(flags);
   int32_t dflags = md_v[0]; int idx = 7;
@@ -130,15 +144,21 @@ void h_def_new(void) {
   if (dflags & JANET_FUNCDEF_FLAG_HASCLOBITSET) {
     size_t words = ((size_t)(uint32_t) d->slotcount + 31) >> 5;
     __CPROVER_assert(MD_SIZE(d->closure_bitset) == sizeof(uint32_t) * words && md_u32_calls == 2 && md_u32_into[1] == d->closure_bitset && (size_t) md_u32_n[1] == words, "C10 funcdef: closure bitset of exactly ceil(slotcount / 32) words, filled by the word reader");
+#ifndef MD_DOS
     REACH("definition with closure bitset");
+#endif
   } else __CPROVER_assert(d->closure_bitset == 0 && md_u32_calls == 1, "C10 funcdef: no closure bitset without the flag");
   __CPROVER_assert((dflags & JANET_FUNCDEF_FLAG_HASNAME) ? d->name == (const uint8_t *)(md_strobj + sizeof(JanetStringHead)) : d->name == 0, "C10 funcdef: the name is the string that was read (must be a string), none without the flag");
   __CPROVER_assert((dflags & JANET_FUNCDEF_FLAG_HASSOURCE) ? d->source == (const uint8_t *)(md_strobj + sizeof(JanetStringHead)) : d->source == 0, "C10 funcdef: the source is the string that was read (must be a string), none without the flag");
   __CPROVER_assert(md_verify_calls == 1 && md_verify_self && md_verify_result == 0 && md_vf[0] == CL && md_vf[1] == BL && md_vf[2] == EL && md_vf[3] == DL && md_vf[4] == SL,
                    "C10 funcdef: handed out only after janet_verify has accepted it - the finished definition with all its counts published");
+#ifdef MD_DOS
+  if (CL > 0) REACH("definition with constants");
+#else
   if (CL > 0 && DL > 0) REACH("definition with constants and nested definitions");
   if (SL > 0) REACH("definition with a symbol map");
   if (EL > 0) REACH("definition with environments");
   if ((dflags & JANET_FUNCDEF_FLAG_HASSOURCEMAP) && BL > 0) REACH("definition with a source map");
+#endif
   REACH("new definition");
 }
